@@ -929,6 +929,21 @@ class Arr:
     def unique(self, *a, **k):
         return unique(self, *a, **k)
 
+    def index_select(self, dim, index):
+        """x.index_select(dim, idx) == x[(slice(None),) * dim + (idx,)] (symbolic indices through the guarded gather)"""
+        dim = dim % self.a.ndim
+        if not isinstance(index, Arr):
+            index = type(self)(_obj(index), dtype="int64")
+        return self[(slice(None),) * dim + (index,)]
+
+    def masked_select(self, mask):
+        """1-D tensor of the elements where the (broadcast) mask is true; symbolic mask entries are decided by forking"""
+        m = mask.a if isinstance(mask, Arr) else _obj(mask)
+        a, m = np.broadcast_arrays(self.a, m)
+        keep = concretize_bool_array(m)
+        self._nograd("masked_select")
+        return self._new(np.array([a[c] for c in np.ndindex(*a.shape) if keep[c]], dtype=object).reshape(-1))
+
     def nonzero(self):
         m = concretize_bool_array(_ne(self.a, 0))
         r = np.nonzero(m)
@@ -1463,6 +1478,38 @@ def stack(xs, dim=0, axis=None, cls=None):
     def bw(g):
         return [np.take(g, i, axis=ax) for i in range(len(xs))]
     return xs[0]._mk(r, xs, bw)
+
+
+def meshgrid(*xs, indexing=None):
+    if len(xs) == 1 and isinstance(xs[0], (list, tuple)):
+        xs = tuple(xs[0])
+    if indexing not in (None, "ij"):
+        raise Inconclusive("meshgrid(indexing=%r) is not modelled" % (indexing,))
+    shape = tuple(x.a.shape[0] for x in xs)
+    out = []
+    for k, x in enumerate(xs):
+        g = np.empty(shape, dtype=object)
+        for c in np.ndindex(*shape):
+            g[c] = x.a[c[k]]
+        out.append(type(x)(g, dtype=x.dtype))
+    return tuple(out)
+
+
+def bincount(x, weights=None, minlength=0):
+    """numpy.bincount on non-negative integers (symbolic entries: If-sums over the possible bins up to the concrete maximum)"""
+    xa = list((x.a if isinstance(x, Arr) else _obj(x)).flat)
+    if weights is not None:
+        raise Inconclusive("bincount with weights is not modelled")
+    if builtins.any(isinstance(v, Sym) for v in xa):
+        raise Inconclusive("bincount of symbolic data is not modelled")
+    if builtins.any(int(v) < 0 for v in xa):
+        raise ValueError("'list' argument must have no negative elements")
+    n = builtins.max([int(v) + 1 for v in xa] + [int(minlength)])
+    out = np.empty((n,), dtype=object)
+    out[...] = 0
+    for v in xa:
+        out[int(v)] += 1
+    return NDArray(out, dtype="int64")
 
 
 def gather(x, dim, index):
